@@ -437,7 +437,7 @@ example : FdtSched.CfgOk exampleAnn exampleSchedCfg ∧ exampleAnn.ok := by
   · intro t
     refine ⟨?_, ?_⟩
     · show effectiveOti ⟨0, 0, 64, 1400, 0, none⟩ ⟨"61", "74", 100, 100, 0, none, none, none, none, none, 1, false⟩ = _
-      simp [effectiveOti, maxTransferLength, u64mul, rsRefused, exampleAnn]
+      simp [effectiveOti, maxTransferLength, satMul64, rsRefused, exampleAnn]
     · simp [attrsXmlOk, exampleAnn]
 
 /-- the k-th FDT instance the scheduler model publishes is the k-th publication of that abstract history: it carries the id
